@@ -42,6 +42,29 @@ func SetSchedLabels(m map[string]bool) {
 	schedLabels.Store(&labelSet{m: m})
 }
 
+// GroupHandler receives the thread.Parallelize hook calls instead of the cooperative scheduler
+// (used by C02's job-order enumerator, which also works for callers on goroutines nobody registered).
+type GroupHandler interface {
+	Spawn() int
+	Begin(token int)
+	End(token int)
+	Acquire(capacity int)
+	Wait()
+}
+
+type groupHolder struct{ g GroupHandler }
+
+var group atomic.Pointer[groupHolder]
+
+// SetGroupHandler installs g (nil removes it).
+func SetGroupHandler(g GroupHandler) {
+	if g == nil {
+		group.Store(nil)
+		return
+	}
+	group.Store(&groupHolder{g: g})
+}
+
 type handler struct{}
 
 func (handler) Point(label string) error {
@@ -56,27 +79,46 @@ func (handler) Point(label string) error {
 	return nil
 }
 func (handler) Spawn() int {
+	if g := group.Load(); g != nil {
+		return g.g.Spawn()
+	}
 	if s := sched.Active(); s != nil {
 		return s.Spawn()
 	}
 	return 0
 }
 func (handler) Begin(token int) {
+	if g := group.Load(); g != nil {
+		g.g.Begin(token)
+		return
+	}
 	if s := sched.Active(); s != nil {
 		s.Begin(token)
 	}
 }
 func (handler) End(token int) {
+	if g := group.Load(); g != nil {
+		g.g.End(token)
+		return
+	}
 	if s := sched.Active(); s != nil {
 		s.End(token)
 	}
 }
 func (handler) Acquire(capacity int) {
+	if g := group.Load(); g != nil {
+		g.g.Acquire(capacity)
+		return
+	}
 	if s := sched.Active(); s != nil {
 		s.Acquire(capacity)
 	}
 }
 func (handler) Wait() {
+	if g := group.Load(); g != nil {
+		g.g.Wait()
+		return
+	}
 	if s := sched.Active(); s != nil {
 		s.Wait()
 	}
